@@ -1,288 +1,1196 @@
 package main
 
+// C02 — served file content stays inside the root and never includes hidden files.
+//
+// Real in-process casket sites (casket.Start on loopback) rooted in a fixture under
+// /var/tmp/verif-C02-<pid>/root whose origin Casketfile lies INSIDE the root (so hideCasketfile
+// applies) and which also hides files through `internal` (the only directive that appends to
+// SiteConfig.HiddenFiles). Every regular file of the fixture carries a unique token, so the
+// provenance of every returned byte run is decidable; token files also exist OUTSIDE the root.
+// Requests are raw request lines (no client-side cleaning) over an adversarial segment alphabet.
+// The fixture tree is a Go table: it is written to disk, re-read from disk (stat + lstat
+// identities) and compared with the table on every run, and emitted to coq/Gen_C02b.v so that
+// the Coq model and spec judge the very same tree.
+
 import (
+	"archive/tar"
+	"archive/zip"
+	"bytes"
+	"compress/bzip2"
+	"compress/gzip"
 	"encoding/json"
 	"fmt"
+	"go/ast"
+	"go/token"
+	"html"
+	"io"
+	"net"
+	"net/url"
 	"os"
+	"os/exec"
+	"path"
 	"path/filepath"
+	"regexp"
 	"sort"
+	"strconv"
 	"strings"
 	"syscall"
+
+	"github.com/andybalholm/brotli"
+	"github.com/golang/snappy"
+	"github.com/klauspost/compress/zstd"
+	"github.com/pierrec/lz4/v4"
+	"github.com/tmpim/casket"
+	"github.com/tmpim/casket/caskethttp/httpserver"
+	"github.com/ulikunitz/xz"
 )
 
-type c02In struct {
-	Site   string `json:"site"` // static | browse | browse-noarchive
-	Method string `json:"method"`
-	Target string `json:"target"` // raw request-target (path, may carry ?query)
-	AE     string `json:"ae,omitempty"`
+// ---------------------------------------------------------------------------------------------
+// fixture table
+
+type c02Ent struct {
+	Path string // cleaned rooted path inside the root
+	Kind byte   // 'd' directory, 'f' regular file, 'h' hard link (no symlinks: the jail is lexical, as http.Dir is)
+	Tok  string // token name of a regular file ("" for directories / links)
+	Enc  string // "", gz, br, zst: the file's bytes are the token text in that coding
+	To   string // link target: rooted path inside the root
+}
+
+var c02Table = []c02Ent{
+	{Path: "/", Kind: 'd'},
+	{Path: "/Casketfile", Kind: 'f', Tok: "CASKET"},
+	{Path: "/secret.txt", Kind: 'f', Tok: "SECRET"},
+	{Path: "/hsib.txt", Kind: 'f', Tok: "HSIB"},
+	{Path: "/hsib.txt.gz", Kind: 'f', Tok: "HSIBGZ", Enc: "gz"},
+	{Path: "/a.txt", Kind: 'f', Tok: "A"},
+	{Path: "/a.txt.gz", Kind: 'f', Tok: "AGZ", Enc: "gz"},
+	{Path: "/a.txt.br", Kind: 'f', Tok: "ABR", Enc: "br"},
+	{Path: "/a.txt.zst", Kind: 'f', Tok: "AZST", Enc: "zst"},
+	{Path: "/b.txt", Kind: 'f', Tok: "B"},
+	{Path: "/b.txt.gz", Kind: 'f', Tok: "BGZ", Enc: "gz"},
+	{Path: "/UP.txt", Kind: 'f', Tok: "UP"},
+	{Path: "/dir", Kind: 'd'},
+	{Path: "/dir/c.txt", Kind: 'f', Tok: "C"},
+	{Path: "/dir/c.txt.zst", Kind: 'f', Tok: "CZST", Enc: "zst"},
+	{Path: "/dir/e", Kind: 'f', Tok: "E"},
+	{Path: "/dir/e.gz", Kind: 'd'},
+	{Path: "/dir/e.gz/inner.txt", Kind: 'f', Tok: "EGZIN"},
+	{Path: "/dir/sub", Kind: 'd'},
+	{Path: "/dir/sub/d.txt", Kind: 'f', Tok: "D"},
+	{Path: "/dir/sub/d.txt.br", Kind: 'f', Tok: "DBR", Enc: "br"},
+	{Path: "/idx", Kind: 'd'},
+	{Path: "/idx/index.html", Kind: 'f', Tok: "IDX"},
+	{Path: "/idx/index.html.gz", Kind: 'f', Tok: "IDXGZ", Enc: "gz"},
+	{Path: "/idx/other.txt", Kind: 'f', Tok: "OTHER"},
+	{Path: "/idx2", Kind: 'd'},
+	{Path: "/idx2/index.txt", Kind: 'f', Tok: "IDXTWO"},
+	{Path: "/idx2/default.html", Kind: 'f', Tok: "DEF"},
+	{Path: "/idir", Kind: 'd'},
+	{Path: "/idir/index.html", Kind: 'd'},
+	{Path: "/idir/index.html/x.txt", Kind: 'f', Tok: "IDIRX"},
+	{Path: "/idir/index.htm", Kind: 'f', Tok: "IDIR"},
+	{Path: "/hidx", Kind: 'd'},
+	{Path: "/hidx/index.html", Kind: 'f', Tok: "HIDX"},
+	{Path: "/hidx/index.htm", Kind: 'f', Tok: "HIDXB"},
+	{Path: "/sp ace.txt", Kind: 'f', Tok: "SP"},
+	{Path: "/\xc3\xa9.txt", Kind: 'f', Tok: "U"},
+	{Path: "/b\\s.txt", Kind: 'f', Tok: "BS"},
+	{Path: "/.dot", Kind: 'f', Tok: "DOT"},
+	{Path: "/pc%41.txt", Kind: 'f', Tok: "PC"},
+	{Path: "/empty", Kind: 'd'},
+	{Path: "/sub2", Kind: 'd'},
+	{Path: "/sub2/Casketfile", Kind: 'f', Tok: "SUBCASKET"},
+	{Path: "/x", Kind: 'd'},
+	{Path: "/x/Casketfile", Kind: 'f', Tok: "XCASKET"},
+	{Path: "/links", Kind: 'd'},
+	{Path: "/links/plain.txt", Kind: 'f', Tok: "PLAIN"},
+	{Path: "/links/hard-casket", Kind: 'h', To: "/Casketfile"},
+	{Path: "/links/hard-a", Kind: 'h', To: "/a.txt"},
+}
+
+// the hide list the sites end up with: hideCasketfile's entry first, then the `internal` paths
+var c02Internal = []string{"/secret.txt", "/hsib.txt.gz", "/hidx/index.html"}
+
+func c02Hide() []string { return c02HideOf("static") }
+
+// c02Origin is where a site kind claims its configuration was loaded from, relative to the
+// fixture's base directory: inside the root (hidden by hideCasketfile), in a sub-directory of the
+// root, outside the root, and in a sibling directory whose name extends the root's (rootx).
+func c02Origin(site string) string {
+	switch site {
+	case "origin-sub":
+		return "root/sub2/Casketfile"
+	case "origin-out":
+		return "outside/Casketfile"
+	case "origin-rootx":
+		return "rootx/Casketfile"
+	}
+	return "root/Casketfile"
+}
+
+// c02HideOf is the hide list of a site kind as hideCasketfile computes it (string prefix test on
+// the absolute paths, then TrimPrefix), followed by the `internal` paths.
+func c02HideOf(site string) []string {
+	var out []string
+	if o := c02Origin(site); strings.HasPrefix(o, "root") {
+		out = append(out, strings.TrimPrefix(o, "root"))
+	}
+	return append(out, c02Internal...)
+}
+
+const (
+	c02OutsideID = 1 // tokens of files outside the root
+	c02UnknownID = 2 // a TOK…z9q run that is not in the table
+)
+
+var c02OutsideToks = []string{"OUTSIDE", "ROOTX", "ROOTTXT"}
+
+func c02TokText(name string) string { return "TOK" + name + "z9q" }
+
+func c02All() []c02Ent {
+	all := append([]c02Ent{}, c02Table...)
+	sort.Slice(all, func(i, j int) bool { return all[i].Path < all[j].Path })
+	return all
+}
+
+// c02Node is the model's view of an entry: cleaned path, directory bit, identity (what
+// os.SameFile compares; hard links share it).
+type c02Node struct {
+	Path string
+	Dir  bool
+	ID   uint64
+}
+
+// c02Nodes derives identities from the table: every entry gets its own identity (10 + index in
+// path order), a hard link has its target's.
+func c02Nodes() []c02Node {
+	all := c02All()
+	own := map[string]uint64{}
+	for i, e := range all {
+		own[e.Path] = uint64(10 + i)
+	}
+	var out []c02Node
+	for _, e := range all {
+		n := c02Node{Path: e.Path, Dir: e.Kind == 'd', ID: own[e.Path]}
+		if e.Kind == 'h' {
+			n.ID = own[e.To]
+		}
+		out = append(out, n)
+	}
+	return out
+}
+
+func c02TokIDs() map[string]uint64 {
+	m := map[string]uint64{}
+	all := c02All()
+	for i, e := range all {
+		if e.Tok != "" {
+			m[c02TokText(e.Tok)] = uint64(10 + i)
+		}
+	}
+	for _, t := range c02OutsideToks {
+		m[c02TokText(t)] = c02OutsideID
+	}
+	return m
+}
+
+func c02Encode(enc, s string) string {
+	switch enc {
+	case "gz":
+		return string(c18Gzip([]byte(s)))
+	case "br":
+		return string(c18Brotli([]byte(s)))
+	case "zst":
+		return string(c18Zstd([]byte(s)))
+	}
+	return s
 }
 
 type c02Fix struct {
 	base, root string
-	nodes      string            // Coq fsys term
-	tokID      map[string]uint64 // token -> inode id
+	err        string
 }
 
 var c02F *c02Fix
-
-const (
-	c02TokCasket = "TOKCASKETz1q"
-	c02TokOut    = "TOKOUTSIDEz2q"
-	c02TokR2     = "TOKROOTTWOz3q"
-)
 
 func c02Fixture() *c02Fix {
 	if c02F != nil {
 		return c02F
 	}
-	base := os.Getenv("VERIF_ROOT")
-	if base == "" {
-		base = os.TempDir()
-	}
-	dir, err := os.MkdirTemp(filepath.Join(base, "run"), "c02fix")
-	if err != nil {
-		panic(err)
-	}
-	root := filepath.Join(dir, "root")
-	tok := func(s string) string { return "TOK" + s + "z9q" }
-	files := map[string]string{
-		"Casketfile":             "# " + c02TokCasket + "\n",
-		"a.txt":                  tok("A"),
-		"a.txt.gz":               gzipBytes(tok("AGZ")),
-		"a.txt.br":               tok("ABR"),
-		"a.txt.zst":              tok("AZST"),
-		"b.txt":                  tok("B"),
-		"b.txt.gz":               gzipBytes(tok("BGZ")),
-		"dir/c.txt":              tok("C"),
-		"dir/sub/d.txt":          tok("D"),
-		"dir/sub/d.txt.br":       tok("DBR"),
-		"idx/index.html":         "<html>" + tok("IDX") + "</html>",
-		"idx/other.txt":          tok("OTHER"),
-		"idx2/index.txt":         tok("IDXTWO"),
-		"idx2/default.html":      tok("DEF"),
-		"idir/index.html/x.txt":  tok("IDIRX"),
-		"idir/index.htm":         tok("IDIR"),
-		"sp ace.txt":             tok("SP"),
-		"é.txt":                  tok("U"),
-		"dir/e.gz/inner.txt":     tok("EGZIN"),
-		"dir/e":                  tok("E"),
-	}
-	if err := writeFixture(root, files); err != nil {
-		panic(err)
-	}
-	writeFixture(dir, map[string]string{"outside/o.txt": c02TokOut, "root2/x.txt": c02TokR2})
-	os.Symlink("Casketfile", filepath.Join(root, "link-casket"))
-	f := &c02Fix{base: dir, root: root, tokID: map[string]uint64{}}
-	var nodes []string
-	filepath.Walk(root, func(p string, info os.FileInfo, err error) error {
-		if err != nil {
-			return nil
+	// fixtures of dead harness processes
+	if old, _ := filepath.Glob("/var/tmp/verif-C02-fix-*"); len(old) > 0 {
+		for _, d := range old {
+			pid, _ := strconv.Atoi(strings.TrimPrefix(filepath.Base(d), "verif-C02-fix-"))
+			if pid <= 0 || syscall.Kill(pid, 0) != nil {
+				os.RemoveAll(d)
+			}
 		}
-		st, err := os.Stat(p) // follows symlinks, as http.Dir does
+	}
+	base := fmt.Sprintf("/var/tmp/verif-C02-fix-%d", os.Getpid())
+	os.RemoveAll(base)
+	root := filepath.Join(base, "root")
+	f := &c02Fix{base: base, root: root}
+	c02F = f
+	fail := func(err error) *c02Fix { f.err = err.Error(); return f }
+	all := c02All()
+	for _, e := range all {
+		p := filepath.Join(root, filepath.FromSlash(e.Path))
+		var err error
+		switch e.Kind {
+		case 'd':
+			err = os.MkdirAll(p, 0o755)
+		case 'f':
+			content := c02TokText(e.Tok)
+			if e.Path == "/Casketfile" {
+				content = "# " + content + "\n"
+			} else if strings.HasSuffix(e.Path, ".html") {
+				content = "<html>" + content + "</html>"
+			}
+			err = os.WriteFile(p, []byte(c02Encode(e.Enc, content)), 0o644)
+		}
 		if err != nil {
-			return nil
+			return fail(err)
+		}
+	}
+	for _, e := range all { // links after their targets
+		p := filepath.Join(root, filepath.FromSlash(e.Path))
+		var err error
+		switch e.Kind {
+		case 'h':
+			err = os.Link(filepath.Join(root, filepath.FromSlash(e.To)), p)
+		}
+		if err != nil {
+			return fail(err)
+		}
+	}
+	if err := writeFixture(base, map[string]string{
+		"outside/o.txt": c02TokText("OUTSIDE"), "rootx/x.txt": c02TokText("ROOTX"), "root.txt": c02TokText("ROOTTXT"),
+		"outside/Casketfile": "# " + c02TokText("OUTSIDE") + "\n",
+	}); err != nil {
+		return fail(err)
+	}
+	// a reaper removes the fixture when this process is gone (however it ends)
+	reap := exec.Command("sh", "-c", fmt.Sprintf("while kill -0 %d 2>/dev/null; do sleep 1; done; rm -rf %s", os.Getpid(), base))
+	reap.SysProcAttr = &syscall.SysProcAttr{Setsid: true}
+	reap.Start()
+	if msg := c02VerifyDisk(root); msg != "" {
+		f.err = "fixture on disk differs from the table: " + msg
+	}
+	return f
+}
+
+// c02VerifyDisk re-reads the tree (kinds and stat identities; a symlink anywhere is an error)
+// and compares its shape with c02Nodes(): same paths, same directory bits, same identity partition.
+func c02VerifyDisk(root string) string {
+	want := c02Nodes()
+	type dn struct {
+		dir bool
+		ino uint64
+	}
+	got := map[string]dn{}
+	err := filepath.Walk(root, func(p string, li os.FileInfo, err error) error {
+		if err != nil {
+			return err
+		}
+		if !li.IsDir() && !li.Mode().IsRegular() {
+			return fmt.Errorf("%s is neither a directory nor a regular file", p)
 		}
 		rel, _ := filepath.Rel(root, p)
 		jp := "/" + filepath.ToSlash(rel)
 		if rel == "." {
 			jp = "/"
 		}
-		ino := st.Sys().(*syscall.Stat_t).Ino
-		nodes = append(nodes, fmt.Sprintf("{| n_path := %s; n_dir := %s; n_id := %s |}", cStr(jp), cBool(st.IsDir()), cN(ino)))
-		if !st.IsDir() {
-			b, _ := os.ReadFile(p)
-			for t := range tokensIn(string(b), files) {
-				f.tokID[t] = ino
-			}
-		}
+		got[jp] = dn{dir: li.IsDir(), ino: li.Sys().(*syscall.Stat_t).Ino}
 		return nil
 	})
-	sort.Strings(nodes)
-	f.nodes = cList(nodes)
-	c02F = f
-	return f
+	if err != nil {
+		return err.Error()
+	}
+	if len(got) != len(want) {
+		return fmt.Sprintf("%d entries on disk, %d in the table", len(got), len(want))
+	}
+	ino2id := map[uint64]uint64{}
+	id2ino := map[uint64]uint64{}
+	for _, n := range want {
+		g, ok := got[n.Path]
+		if !ok {
+			return "missing " + n.Path
+		}
+		if x, ok := ino2id[g.ino]; ok && x != n.ID {
+			return "identity of " + n.Path
+		}
+		if x, ok := id2ino[n.ID]; ok && x != g.ino {
+			return "identity of " + n.Path
+		}
+		ino2id[g.ino], id2ino[n.ID] = n.ID, g.ino
+		if g.dir != n.Dir {
+			return "kind of " + n.Path
+		}
+	}
+	return ""
 }
 
-// tokensIn returns the fixture tokens (decoded) that a file's content carries
-func tokensIn(content string, files map[string]string) map[string]bool {
-	out := map[string]bool{}
-	views := decodedViews([]byte(content))
-	for _, v := range views {
-		s := string(v)
-		for i := 0; i+3 < len(s); i++ {
-			if strings.HasPrefix(s[i:], "TOK") {
-				j := i + 3
-				for j < len(s) && ((s[j] >= 'A' && s[j] <= 'Z') || (s[j] >= '0' && s[j] <= '9')) {
-					j++
-				}
-				if strings.HasPrefix(s[j:], "z9q") {
-					out[s[i:j+3]] = true
-				}
+// ---------------------------------------------------------------------------------------------
+// sites
+
+var c02SiteKinds = []string{"static", "browse", "scoped"}
+var c02OriginKinds = []string{"origin-sub", "origin-out", "origin-rootx"}
+
+// browse configuration of a site kind: scope and archive types ("" = no browse)
+func c02Browse(site string) (scope string, types []string) {
+	switch site {
+	case "browse":
+		return "/", c02ArchiveTypes
+	case "scoped":
+		return "/dir", []string{"zip", "tar.gz"}
+	case "prefix-browse":
+		return "/", nil
+	case "origin-sub", "origin-out", "origin-rootx":
+		return "/", []string{"zip"}
+	}
+	return "", nil
+}
+
+var c02ArchiveTypes = []string{"zip", "tar", "tar.gz", "tar.xz", "tar.br", "tar.bz2", "tar.lz4", "tar.sz", "tar.zst"}
+
+var c02Sites = map[string]*liveSite{}
+
+func c02Site(kind string) (*liveSite, error) {
+	if s, ok := c02Sites[kind]; ok {
+		return s, nil
+	}
+	fx := c02Fixture()
+	if fx.err != "" {
+		return nil, fmt.Errorf("%s", fx.err)
+	}
+	httpserver.CaseSensitivePath = false
+	body := "root " + fx.root + "\n"
+	for _, p := range c02Internal {
+		body += "internal " + p + "\n"
+	}
+	switch kind {
+	case "browse":
+		body += "browse / {\n servearchive\n}\n"
+	case "scoped":
+		body += "browse /dir {\n servearchive zip tar.gz\n}\n"
+	case "origin-sub", "origin-out", "origin-rootx":
+		body += "browse / {\n servearchive zip\n}\n"
+	}
+	casket.Quiet = true
+	text := "127.0.0.1:0 {\n" + body + "}\n"
+	if kind == "prefix" || kind == "prefix-browse" { // a site with a path prefix
+		if kind == "prefix-browse" {
+			body += "browse /\n"
+		}
+		text = "127.0.0.1:0/pre {\n" + body + "}\n"
+	}
+	inst, err := casket.Start(casket.CasketfileInput{Contents: []byte(text), Filepath: filepath.Join(fx.base, c02Origin(kind)), ServerTypeName: "http"})
+	if err != nil {
+		return nil, err
+	}
+	srvs := inst.Servers()
+	if len(srvs) == 0 {
+		inst.Stop()
+		return nil, fmt.Errorf("no servers")
+	}
+	_, port, _ := net.SplitHostPort(srvs[0].Addr().String())
+	s := &liveSite{inst: inst, addr: "127.0.0.1:" + port, text: body}
+	c02Sites[kind] = s
+	return s, nil
+}
+
+// ---------------------------------------------------------------------------------------------
+// observation
+
+type c02In struct {
+	Site   string `json:"site"`   // static | browse | scoped
+	Method string `json:"method"` // GET HEAD POST OPTIONS PROPFIND
+	Target string `json:"target"` // raw request-target (path, may carry ?query)
+	AE     string `json:"ae,omitempty"`
+	JSON   bool   `json:"json,omitempty"` // Accept: application/json
+}
+
+type c02Member struct {
+	Name string
+	Dir  bool
+	Data []byte
+}
+
+type c02Obs struct {
+	Status  int      `json:"status"`
+	Loc     string   `json:"location,omitempty"`
+	CE      string   `json:"ce,omitempty"`
+	CT      string   `json:"ct,omitempty"`
+	Kind    int      `json:"kind"` // 0 plain, 1 listing, 2 archive
+	IDs     []uint64 `json:"ids,omitempty"`
+	Toks    []string `json:"tokens,omitempty"`
+	Names   []string `json:"names,omitempty"`
+	BodyLen int      `json:"len"`
+	Err     string   `json:"err,omitempty"`
+	Note    string   `json:"note,omitempty"`
+}
+
+var c02TokRe = regexp.MustCompile(`TOK[A-Z0-9]+z9q`)
+
+// c02Scan collects the tokens visible in b itself and in every decoding of b a client could apply.
+func c02Scan(b []byte, into map[string]bool) {
+	for _, m := range c02TokRe.FindAll(b, -1) {
+		into[string(m)] = true
+	}
+	for _, coding := range []string{"gzip", "br", "zstd"} {
+		if d, _, ok := c18Decode(coding, b); ok && len(d) > 0 {
+			for _, m := range c02TokRe.FindAll(d, -1) {
+				into[string(m)] = true
 			}
 		}
 	}
-	return out
 }
 
-func c02Run(in0 interface{}) Result {
-	in := in0.(*c02In)
-	fx := c02Fixture()
-	body := "root " + fx.root + "\n"
-	switch in.Site {
-	case "browse":
-		body += "browse / {\n servearchive zip tar\n}\n"
-	case "browse-noarchive":
-		body += "browse /\n"
+func c02Untar(r io.Reader) ([]c02Member, bool) {
+	tr := tar.NewReader(r)
+	var out []c02Member
+	for {
+		h, err := tr.Next()
+		if err == io.EOF {
+			return out, true
+		}
+		if err != nil {
+			return out, false
+		}
+		d, _ := io.ReadAll(tr)
+		out = append(out, c02Member{Name: h.Name, Dir: h.Typeflag == tar.TypeDir, Data: d})
 	}
-	st, err := getSiteAt(body, filepath.Join(fx.root, "Casketfile"))
+}
+
+func c02Unarchive(kind string, b []byte) ([]c02Member, bool) {
+	rd := bytes.NewReader(b)
+	switch kind {
+	case "zip":
+		zr, err := zip.NewReader(rd, int64(len(b)))
+		if err != nil {
+			return nil, false
+		}
+		var out []c02Member
+		for _, f := range zr.File {
+			m := c02Member{Name: f.Name, Dir: f.FileInfo().IsDir()}
+			if rc, err := f.Open(); err == nil {
+				m.Data, _ = io.ReadAll(rc)
+				rc.Close()
+			}
+			out = append(out, m)
+		}
+		return out, true
+	case "tar":
+		return c02Untar(rd)
+	case "tar.gz":
+		zr, err := gzip.NewReader(rd)
+		if err != nil {
+			return nil, false
+		}
+		return c02Untar(zr)
+	case "tar.bz2":
+		return c02Untar(bzip2.NewReader(rd))
+	case "tar.xz":
+		xr, err := xz.NewReader(rd)
+		if err != nil {
+			return nil, false
+		}
+		return c02Untar(xr)
+	case "tar.br":
+		return c02Untar(brotli.NewReader(rd))
+	case "tar.lz4":
+		return c02Untar(lz4.NewReader(rd))
+	case "tar.sz":
+		return c02Untar(snappy.NewReader(rd))
+	case "tar.zst":
+		zr, err := zstd.NewReader(rd)
+		if err != nil {
+			return nil, false
+		}
+		defer zr.Close()
+		return c02Untar(zr)
+	}
+	return nil, false
+}
+
+var c02MimeToType = map[string]string{
+	"application/zip": "zip", "application/tar": "tar", "application/tar+gzip": "tar.gz", "application/tar+xz": "tar.xz",
+	"application/tar+brotli": "tar.br", "application/tar+bzip2": "tar.bz2", "application/tar+lz4": "tar.lz4",
+	"application/tar+snappy": "tar.sz", "application/tar+zstd": "tar.zst",
+}
+
+var c02NameRe = regexp.MustCompile(`<span class="name">([^<]*)</span>`)
+
+func c02Do(in *c02In) (c02Obs, error) {
+	st, err := c02Site(in.Site)
 	if err != nil {
-		return Result{Term: "(CBrowse 0 [] false false)", Obs: "start error: " + err.Error(), Class: "start-error", Sig: "start-error", Direct: "site did not start: " + err.Error()}
+		return c02Obs{}, err
 	}
 	hdr := map[string]string{}
 	if in.AE != "" {
 		hdr["Accept-Encoding"] = in.AE
 	}
-	resp := doRaw(st.addr, in.Method, in.Target, hdr, nil)
-	views := decodedViews(resp.Body)
-	outside := containsAny(views, c02TokOut) || containsAny(views, c02TokR2)
-	hidden := containsAny(views, c02TokCasket) || containsAny(views, "NAME:Casketfile") || containsAny(views, "NAME:link-casket") ||
-		containsAny(views, "./Casketfile\"") || containsAny(views, "./link-casket\"") || containsAny(views, "\"Casketfile\"")
-	loc := resp.Header.Get("Location")
-	obs := map[string]interface{}{"status": resp.Status, "location": loc, "ce": resp.Header.Get("Content-Encoding"), "len": len(resp.Body), "outside": outside, "hidden": hidden, "err": resp.Err}
-	if in.Site != "static" {
-		sig := "browse"
-		switch {
-		case hidden && (strings.HasPrefix(resp.Header.Get("Content-Type"), "application/zip") || strings.HasPrefix(resp.Header.Get("Content-Type"), "application/tar")):
-			sig = "browse:archive-contains-hidden-file"
-		case loc != "" && (strings.HasPrefix(loc, "//") || strings.HasPrefix(loc, "/\\") || !strings.HasPrefix(loc, "/")):
-			sig = "browse:redirect-not-same-origin"
-		}
-		return Result{Term: cApp("CBrowse", cN(uint64(resp.Status)), cStr(loc), cBool(outside), cBool(hidden)), Obs: obs, Sig: sig,
-			Nontrivial: resp.Status == 200 || resp.Status == 301, Key: in.Site + in.Method + in.Target + in.AE, Class: fmt.Sprintf("%s:%d", in.Site, resp.Status)}
+	if in.JSON {
+		hdr["Accept"] = "application/json"
 	}
-	// static: which file's token is in the body?
-	ofile := "None"
-	found := map[uint64]bool{}
-	for _, v := range views {
-		for t := range tokensIn(string(v), nil) {
-			if id, ok := fx.tokID[t]; ok {
-				found[id] = true
+	resp := doRaw(st.addr, in.Method, in.Target, hdr, nil)
+	o := c02Obs{Status: resp.Status, BodyLen: len(resp.Body), Err: resp.Err}
+	if resp.Header != nil {
+		o.Loc = resp.Header.Get("Location")
+		o.CE = resp.Header.Get("Content-Encoding")
+		o.CT = resp.Header.Get("Content-Type")
+	}
+	toks := map[string]bool{}
+	body := resp.Body
+	// what the client decodes
+	if o.CE != "" {
+		if d, known, ok := c18Decode(strings.ToLower(strings.TrimSpace(o.CE)), body); known && ok {
+			c02Scan(d, toks)
+		} else {
+			o.Note = "body does not decode as " + o.CE
+		}
+	}
+	c02Scan(body, toks)
+	ct := o.CT
+	if i := strings.Index(ct, ";"); i >= 0 {
+		ct = ct[:i]
+	}
+	if at, ok := c02MimeToType[ct]; ok && resp.Status == 200 && in.Site != "static" && in.Method != "HEAD" {
+		members, complete := c02Unarchive(at, body)
+		o.Kind = 2
+		if !complete {
+			o.Note = "archive truncated or unreadable"
+		}
+		for _, m := range members {
+			name := strings.TrimSuffix(m.Name, "/")
+			if p, _, _ := c02Split(in.Target); path.Clean("/"+p) != "/" {
+				// members are named <directory name>/<relative path>; the root's have no such folder
+				if i := strings.Index(name, "/"); i >= 0 {
+					name = name[i+1:]
+				} else {
+					name = ""
+				}
+			}
+			if name != "" {
+				o.Names = append(o.Names, name)
+			}
+			c02Scan(m.Data, toks)
+		}
+	} else if resp.Status == 200 && in.Site != "static" && in.Method != "HEAD" {
+		if ct == "application/json" {
+			var items []struct{ Name string }
+			if json.Unmarshal(body, &items) == nil {
+				o.Kind = 1
+				for _, it := range items {
+					o.Names = append(o.Names, it.Name)
+				}
+			}
+		} else if ct == "text/html" && bytes.Contains(body, []byte(`id="filter"`)) {
+			o.Kind = 1
+			for _, m := range c02NameRe.FindAllSubmatch(body, -1) {
+				o.Names = append(o.Names, html.UnescapeString(string(m[1])))
 			}
 		}
 	}
-	// the raw (undecoded) body decides for precompressed siblings: their token lives in the sibling file
-	if len(found) == 1 {
-		for id := range found {
-			ofile = fmt.Sprintf("(Some %s)", cN(id))
+	sort.Strings(o.Names)
+	ids := c02TokIDs()
+	seen := map[uint64]bool{}
+	for t := range toks {
+		o.Toks = append(o.Toks, t)
+		id, ok := ids[t]
+		if !ok {
+			id = c02UnknownID
 		}
-	} else if len(found) > 1 {
-		obs["multiple_tokens"] = true
+		if !seen[id] {
+			seen[id] = true
+			o.IDs = append(o.IDs, id)
+		}
 	}
-	path := in.Target
-	if i := strings.Index(path, "?"); i >= 0 {
-		path = path[:i]
-	}
-	upath, uerr := urlUnescapePath(path)
-	if uerr != nil || resp.Status == 400 || resp.Status == 0 {
-		// net/http rejected the request-target before casket saw it
-		return Result{Term: "(CBrowse 0 [] false false)", Obs: obs, Sig: "static:rejected-by-net-http", Class: "static:rejected"}
-	}
-	sig := "static"
-	if loc != "" && (strings.HasPrefix(loc, "//") || strings.HasPrefix(loc, "/\\")) {
-		sig = "static:redirect-not-same-origin"
-	}
-	goh := in.Method == "GET" || in.Method == "HEAD"
-	term := cApp("CStatic", fx.nodes, cStrList([]string{"/Casketfile"}), "gen_default_index_pages", cBool(goh), cBool(in.Method == "HEAD"),
-		cStr(upath), cStr(in.AE), cN(uint64(resp.Status)), cStr(loc), cStr(resp.Header.Get("Content-Encoding")), ofile, cBool(outside), cBool(hidden))
-	return Result{Term: term, Obs: obs, Sig: sig, Nontrivial: resp.Status == 200 || resp.Status == 307, Key: in.Method + in.Target + "|" + in.AE,
-		Class: fmt.Sprintf("static:%d", resp.Status)}
+	sort.Strings(o.Toks)
+	sort.Slice(o.IDs, func(i, j int) bool { return o.IDs[i] < o.IDs[j] })
+	return o, nil
 }
 
-// urlUnescapePath decodes %XX as net/http does for r.URL.Path
-func urlUnescapePath(p string) (string, error) {
+// c02Split separates the request-target into the decoded path net/http hands to the handlers
+// and the raw query; ok=false if net/http rejects the target.
+func c02Split(target string) (p, query string, ok bool) {
+	raw := target
+	if i := strings.Index(raw, "?"); i >= 0 {
+		raw, query = raw[:i], raw[i+1:]
+	}
 	var sb strings.Builder
-	for i := 0; i < len(p); i++ {
-		if p[i] == '%' {
-			if i+2 >= len(p)+0 && i+2 > len(p)-1+0 && i+2 >= len(p) {
-				return "", fmt.Errorf("bad escape")
+	hv := func(c byte) int {
+		switch {
+		case c >= '0' && c <= '9':
+			return int(c - '0')
+		case c >= 'a' && c <= 'f':
+			return int(c-'a') + 10
+		case c >= 'A' && c <= 'F':
+			return int(c-'A') + 10
+		}
+		return -1
+	}
+	for i := 0; i < len(raw); i++ {
+		if raw[i] == '%' {
+			if i+2 >= len(raw) || hv(raw[i+1]) < 0 || hv(raw[i+2]) < 0 {
+				return "", "", false
 			}
-			h := func(c byte) int {
-				switch {
-				case c >= '0' && c <= '9':
-					return int(c - '0')
-				case c >= 'a' && c <= 'f':
-					return int(c-'a') + 10
-				case c >= 'A' && c <= 'F':
-					return int(c-'A') + 10
-				}
-				return -1
-			}
-			a, b := h(p[i+1]), h(p[i+2])
-			if a < 0 || b < 0 {
-				return "", fmt.Errorf("bad escape")
-			}
-			sb.WriteByte(byte(a*16 + b))
+			sb.WriteByte(byte(hv(raw[i+1])*16 + hv(raw[i+2])))
 			i += 2
 		} else {
-			sb.WriteByte(p[i])
+			sb.WriteByte(raw[i])
 		}
 	}
-	return sb.String(), nil
+	return sb.String(), query, true
+}
+
+// c02PrefixPath is the request path the handlers of the site 127.0.0.1:0/pre see: net/http's
+// parse of the request-target, then httpserver.trimPathPrefix (TrimPrefix on the escaped path,
+// re-parsed with url.Parse).
+func c02PrefixPath(target string) (string, bool) {
+	u, err := url.ParseRequestURI(target)
+	if err != nil {
+		return "", false
+	}
+	trimmed := strings.TrimPrefix(u.EscapedPath(), "/pre")
+	if !strings.HasPrefix(trimmed, "/") {
+		trimmed = "/" + trimmed
+	}
+	uri := trimmed
+	if u.RawQuery != "" || u.ForceQuery {
+		uri += "?" + u.RawQuery
+	}
+	t, err := url.Parse(uri)
+	if err != nil {
+		return u.Path, true
+	}
+	return t.Path, true
+}
+
+func c02EscapedPath(target string) string {
+	u, err := url.ParseRequestURI(target)
+	if err != nil {
+		return target
+	}
+	return u.EscapedPath()
+}
+
+func c02QueryGet(query, key string) string {
+	v, _ := url.ParseQuery(query) // what r.URL.Query() does
+	return v.Get(key)
+}
+
+func c02MethodCode(m string) uint64 {
+	switch m {
+	case "GET":
+		return 0
+	case "HEAD":
+		return 1
+	case "OPTIONS":
+		return 2
+	case "PROPFIND":
+		return 3
+	}
+	return 4
+}
+
+func c02Run(in0 interface{}) Result {
+	in := in0.(*c02In)
+	skip := func(class, why string) Result {
+		return Result{Term: "CSkip", Obs: why, Class: class, Sig: class}
+	}
+	p, query, ok := c02Split(in.Target)
+	prefixSite := strings.HasPrefix(in.Site, "prefix")
+	if prefixSite {
+		p, ok = c02PrefixPath(in.Target)
+	}
+	o, err := c02Do(in)
+	if err != nil {
+		r := skip("start-error", err.Error())
+		r.Direct = "site did not start / fixture unusable: " + err.Error()
+		return r
+	}
+	if !ok || o.Status == 400 || o.Status == 0 {
+		return Result{Term: "CSkip", Obs: o, Class: "rejected-by-net-http", Sig: "rejected-by-net-http"}
+	}
+	scope, types := c02Browse(in.Site)
+	loc := o.Loc
+	if i := strings.Index(loc, "?"); i >= 0 {
+		loc = loc[:i]
+	}
+	req := cApp("mkreq", cN(c02MethodCode(in.Method)), cStr(p), cStr(in.AE), cStr(c02QueryGet(query, "archive")))
+	fx := c02Fixture()
+	site := cApp("mksite", cStr(fx.root), cStr(filepath.Join(fx.base, c02Origin(in.Site))), cStr(scope), cStrList(types))
+	ob := cApp("mkobs", cN(uint64(o.Status)), cStr(loc), cStr(o.CE), cN(uint64(o.Kind)), cNList(o.IDs), cStrList(o.Names))
+	if prefixSite {
+		// the path-prefix trimming of httpserver.Server (url.Parse of the escaped rest) is not modelled:
+		// these cases are judged against the executable property only
+		sig := c02Sig(in, p, query)
+		if strings.HasPrefix(p, "//") || strings.HasPrefix(strings.TrimPrefix(c02EscapedPath(in.Target), "/pre"), "//") {
+			sig = "prefix-site:rest-after-prefix-starts-with-two-slashes"
+		}
+		return Result{Term: cApp("CContract", site, req, ob), Obs: o, Sig: sig, Nontrivial: o.Status == 200 || o.Status/100 == 3,
+			Key: in.Site + "|" + in.Method + "|" + in.Target + "|" + in.AE, Class: fmt.Sprintf("%s:%s:%d:k%d", in.Site, in.Method, o.Status, o.Kind)}
+	}
+	sig := c02Sig(in, p, query)
+	for _, id := range o.IDs {
+		if id == c02OutsideID || id == c02UnknownID {
+			sig += ":token-from-outside-the-root"
+			break
+		}
+	}
+	return Result{Term: cApp("CReq", site, req, ob), Obs: o, Sig: sig, Nontrivial: o.Status == 200 || o.Status/100 == 3,
+		Key: in.Site + "|" + in.Method + "|" + in.Target + "|" + in.AE + fmt.Sprint(in.JSON), Class: fmt.Sprintf("%s:%s:%d:k%d", in.Site, in.Method, o.Status, o.Kind)}
+}
+
+// c02Sig is the class of the INPUT (site kind, what the cleaned path names, what is asked for).
+func c02Sig(in *c02In, p, query string) string {
+	c := path.Clean("/" + p)
+	nodes := c02Nodes()
+	var at *c02Node
+	for i := range nodes {
+		if nodes[i].Path == c {
+			at = &nodes[i]
+		}
+	}
+	hiddenID := map[uint64]bool{}
+	for _, h := range c02HideOf(in.Site) {
+		for _, n := range nodes {
+			if n.Path == path.Clean("/"+h) { // hide entries are opened through the jail
+				hiddenID[n.ID] = true
+			}
+		}
+	}
+	scope, _ := c02Browse(in.Site)
+	inScope := scope != "" && (scope == "/" || strings.HasPrefix(strings.ToLower(c), scope))
+	get := in.Method == "GET" || in.Method == "HEAD"
+	switch {
+	case at == nil:
+		return in.Site + ":no-such-file"
+	case at.Dir && inScope && get && !strings.HasSuffix(p, "/") && strings.HasPrefix(p, "//") && !strings.HasPrefix(p, "///"):
+		return "browse:dir-redirect:path-starts-with-two-slashes"
+	case at.Dir && inScope && get && strings.HasSuffix(p, "/") && c02QueryGet(query, "archive") != "":
+		for _, n := range nodes {
+			if strings.HasPrefix(n.Path, strings.TrimSuffix(c, "/")+"/") && !n.Dir && hiddenID[n.ID] {
+				return "browse:archive:directory-with-hidden-descendant"
+			}
+		}
+		return "browse:archive"
+	case at.Dir:
+		return in.Site + ":dir"
+	}
+	// a file: does an accepted precompressed sibling exist that is itself hidden?
+	for _, e := range [][2]string{{"zstd", ".zst"}, {"br", ".br"}, {"gzip", ".gz"}} {
+		acc := false
+		for _, t := range strings.Split(in.AE, ",") {
+			if strings.TrimSpace(t) == e[0] {
+				acc = true
+			}
+		}
+		if !acc {
+			continue
+		}
+		for _, n := range nodes {
+			if n.Path == c+e[1] && hiddenID[n.ID] && !hiddenID[at.ID] {
+				return "static:file-with-hidden-precompressed-sibling"
+			}
+			if n.Path == c+e[1] && n.Dir && !hiddenID[at.ID] {
+				return "static:file-with-directory-named-like-precompressed-sibling"
+			}
+		}
+	}
+	if hiddenID[at.ID] {
+		return in.Site + ":hidden-file"
+	}
+	return in.Site + ":file"
+}
+
+// ---------------------------------------------------------------------------------------------
+// generator
+
+const c02Hex = "0123456789abcdef0123456789ABCDEF"
+
+// c02Render spells a list of decoded segments as a raw request-target path: bytes that cannot
+// travel literally are always percent-encoded, others (dots, slashes, letters) with probability enc%.
+func c02Render(r *Rand, segs []string, trailing bool, enc int) string {
+	var sb strings.Builder
+	esc := func(c byte) {
+		k := 0
+		if r.Bool() {
+			k = 16
+		}
+		sb.WriteByte('%')
+		sb.WriteByte(c02Hex[k+int(c>>4)])
+		sb.WriteByte(c02Hex[k+int(c&15)])
+	}
+	put := func(c byte) {
+		switch {
+		case c <= 0x20 || c == 0x7f || c == '%' || c == '?' || c == '#':
+			esc(c)
+		case c >= 0x80 && r.Chance(70):
+			esc(c)
+		case r.Chance(enc):
+			esc(c)
+		default:
+			sb.WriteByte(c)
+		}
+	}
+	for _, s := range segs {
+		if r.Chance(enc / 2) {
+			sb.WriteString(r.Pick([]string{"%2f", "%2F"})) // decodes to a separator in r.URL.Path
+		} else {
+			sb.WriteByte('/')
+		}
+		for i := 0; i < len(s); i++ {
+			put(s[i])
+		}
+	}
+	if trailing || len(segs) == 0 {
+		sb.WriteByte('/')
+	}
+	return sb.String()
+}
+
+func c02FlipCase(r *Rand, s string) string {
+	b := []byte(s)
+	var idx []int
+	for i, c := range b {
+		if (c >= 'a' && c <= 'z') || (c >= 'A' && c <= 'Z') {
+			idx = append(idx, i)
+		}
+	}
+	if len(idx) == 0 {
+		return s
+	}
+	i := idx[r.Intn(len(idx))]
+	b[i] ^= 0x20
+	return string(b)
+}
+
+// c02Mutate applies one adversarial respelling to a list of segments.
+func c02Mutate(r *Rand, segs []string) []string {
+	ins := func(at int, what ...string) []string {
+		out := append([]string{}, segs[:at]...)
+		out = append(out, what...)
+		return append(out, segs[at:]...)
+	}
+	at := r.Intn(len(segs) + 1)
+	switch r.Intn(12) {
+	case 0:
+		return ins(at, ".")
+	case 1:
+		return ins(at, "")
+	case 2:
+		return ins(at, r.Pick([]string{"x", "dir", "a.txt", "evil.example", "Casketfile", ".."}), "..")
+	case 3:
+		return ins(0, "", "")
+	case 4:
+		return ins(0, "", r.Pick([]string{"evil.example", "evil.example:80", "@evil.example", "\\evil.example"}), "..")
+	case 5:
+		return ins(0, "..")
+	case 6:
+		if len(segs) > 0 {
+			i := r.Intn(len(segs))
+			out := append([]string{}, segs...)
+			out[i] = c02FlipCase(r, out[i])
+			return out
+		}
+	case 7: // a backslash instead of a separator
+		if len(segs) > 1 {
+			i := r.Intn(len(segs) - 1)
+			out := append([]string{}, segs[:i]...)
+			out = append(out, segs[i]+"\\"+segs[i+1])
+			return append(out, segs[i+2:]...)
+		}
+	case 8:
+		return ins(len(segs), r.Pick([]string{".", "..", "x"}))
+	case 9:
+		return ins(at, "..", r.Pick([]string{"root", "rootx", "outside"}))
+	case 10:
+		return ins(0, r.Pick([]string{"\\", "\\evil.example", "..\\..", "\x00"}))
+	}
+	return segs
+}
+
+var c02AEs = []string{"", "", "", "gzip", "br", "zstd", "gzip, br", "zstd, gzip", "br,zstd", "zstd,br,gzip", "gzip, br, zstd", "br;q=1.0, gzip", " gzip ", "GZIP",
+	"gzip;q=0", "x-gzip", "*", "identity", "deflate, gzip", "gzip,", ",br", "zstd ,\tbr", "gzipx", "br, br", "xbr", "notzstd", "bro", "gzip2, zstdx", "Br", "ZSTD"}
+
+func c02PickMethod(r *Rand) string {
+	switch k := r.Intn(100); {
+	case k < 68:
+		return "GET"
+	case k < 88:
+		return "HEAD"
+	case k < 92:
+		return "POST"
+	case k < 96:
+		return "OPTIONS"
+	}
+	return "PROPFIND"
+}
+
+func c02PickQuery(r *Rand, site string) string {
+	types := append(append([]string{}, c02ArchiveTypes...), "rar", "ZIP", "tar.gz%20", "%7Aip", "")
+	switch k := r.Intn(100); {
+	case k < 30:
+		return ""
+	case k < 65:
+		return "?archive=" + r.Pick(types)
+	case k < 75:
+		return "?archive=" + r.Pick([]string{"zip", "tar.gz"})
+	case k < 90:
+		return "?sort=" + r.Pick([]string{"name", "namedirfirst", "size", "time", "bogus"}) + "&order=" + r.Pick([]string{"asc", "desc", "x"})
+	case k < 95:
+		return "?sort=" + r.Pick([]string{"name", "size", "time"}) + "&order=desc&archive=" + r.Pick(types)
+	}
+	return "?x=//evil.example/&y=%2f"
 }
 
 func c02Gen(r *Rand, tier string) []interface{} {
 	var out []interface{}
-	n := 1500
-	if tier == "thorough" {
-		n = 25000
+	add := func(site, method, target, ae string, js bool) {
+		out = append(out, &c02In{Site: site, Method: method, Target: target, AE: ae, JSON: js})
 	}
-	targets := []string{"/", "/a.txt", "/b.txt", "/dir", "/dir/", "/dir/c.txt", "/dir/sub/d.txt", "/dir/sub", "/idx", "/idx/", "/idx/index.html", "/idx2/", "/idir/", "/idir/index.html",
-		"/Casketfile", "/link-casket", "/sp%20ace.txt", "/%C3%A9.txt", "/dir/e", "/dir/e.gz", "/nope", "/a.txt/", "/Casketfile/", "/dir/c.txt/", "/a.txt.gz", "/idx/other.txt",
-		"/../outside/o.txt", "/dir/../../outside/o.txt", "/..%2foutside/o.txt", "/%2e%2e/outside/o.txt", "/../root2/x.txt", "/..%5coutside%5co.txt", "/dir/..%2f..%2foutside/o.txt",
-		"//evil.example/..", "///evil.example/%2e%2e", "//evil.example/%2e%2e/a.txt/", "///evil.example/%2e%2e/a.txt/", "////evil.example/%2e%2e/dir", "/%5cevil.example/..", "/%5Cevil.example/%2e%2e/dir",
-		"//dir", "///dir", "//a.txt/", "/./dir", "/dir/.", "/dir/sub/..", "/idx/.", "/Casketfile/.", "/Casketfile/%2e", "/x/../Casketfile", "/dir/../Casketfile/.", "/%43asketfile", "/CASKETFILE"}
-	spell := func(t string) string {
-		switch r.Intn(10) {
-		case 0:
-			return "/." + t
-		case 1:
-			return "/" + t
-		case 2:
-			return "/dir/.." + t
-		case 3:
-			return strings.Replace(t, "/", "//", 1)
-		case 4:
-			return t + "/"
-		case 5:
-			return t + "/."
-		case 6:
-			return strings.Replace(t, "/", "/%2e/", 1)
-		case 7:
-			return t + "/x/.."
+	thorough := tier == "thorough"
+	all := c02All()
+	var dirs, files []string
+	for _, e := range all {
+		if e.Kind == 'd' {
+			dirs = append(dirs, e.Path)
+		} else {
+			files = append(files, e.Path)
 		}
-		return t
 	}
-	aes := []string{"", "", "gzip", "br", "zstd", "gzip, br", "zstd, gzip", "br;q=1.0, gzip", " gzip ", "GZIP", "identity", "zstd,br,gzip", "deflate, gzip"}
-	for i := 0; i < n; i++ {
-		in := &c02In{Site: "static", Method: r.Pick([]string{"GET", "GET", "GET", "HEAD", "POST"}), Target: spell(r.Pick(targets)), AE: r.Pick(aes)}
-		if r.Chance(30) {
-			in.Site = r.Pick([]string{"browse", "browse", "browse-noarchive"})
-			if r.Chance(45) {
-				in.Target += "?archive=" + r.Pick([]string{"zip", "tar", "tar.gz", "rar"})
+	segsOf := func(p string) []string {
+		if p == "/" {
+			return nil
+		}
+		return strings.Split(strings.TrimPrefix(p, "/"), "/")
+	}
+
+	// (1) exhaustive over the adversarial segment alphabet, static GET (depth 2; depth 3 sampled / full)
+	alpha := []string{"a.txt", "dir", ".", "..", "", "%2e", "%2E%2e", "%2f", "\\", "%5c", "A.TXT", "Casketfile", "x"}
+	var enum func(prefix string, depth int)
+	enum = func(prefix string, depth int) {
+		for _, a := range alpha {
+			t := prefix + "/" + a
+			if depth <= 2 || thorough || r.Chance(12) {
+				add("static", "GET", t, "", false)
+				add("static", "GET", t+"/", "", false)
+			}
+			if (depth <= 2 && r.Chance(50)) || (thorough && r.Chance(40)) {
+				add("browse", "GET", t+r.Pick([]string{"", "/", "/?archive=zip", "/?archive=tar.gz"}), "", r.Chance(20))
+			}
+			if depth < 3 {
+				enum(t, depth+1)
 			}
 		}
-		out = append(out, in)
 	}
-	sort.SliceStable(out, func(i, j int) bool { return out[i].(*c02In).Site < out[j].(*c02In).Site })
+	enum("", 1)
+
+	// (2) directed: every directory x every archive type, listings x sort x json, on both browse sites
+	for _, d := range dirs {
+		t := c02Render(r, segsOf(d), true, 0)
+		for _, at := range append(append([]string{}, c02ArchiveTypes...), "rar") {
+			if thorough || d == "/" || d == "/links" || r.Chance(25) {
+				add("browse", "GET", t+"?archive="+at, "", false)
+			}
+		}
+		add("scoped", "GET", t+"?archive=zip", "", false)
+		add("browse", "HEAD", t+"?archive=tar", "", false)
+		for _, q := range []string{"", "?sort=name&order=desc", "?sort=size&order=asc", "?sort=time&order=desc", "?sort=namedirfirst"} {
+			add("browse", "GET", t+q, "", false)
+			add("browse", "GET", t+q, "", true)
+		}
+		add("scoped", "GET", t, "", r.Bool())
+		add("browse", "GET", c02Render(r, segsOf(d), false, 0), "", false)
+		add("static", "GET", c02Render(r, segsOf(d), false, 0), "", false)
+	}
+	// open-redirect shapes: k leading slashes, a foreign first segment cancelled by "..", directory / file-with-slash targets
+	for k := 1; k <= 5; k++ {
+		lead := strings.Repeat("/", k)
+		for _, host := range []string{"evil.example", "evil.example:8080", "\\evil.example", "%5cevil.example", "@evil.example", "evil.example%2f.."} {
+			for _, tail := range []string{"/..", "/%2e%2e", "/../dir", "/../dir/sub", "/../a.txt/", "/%2e%2e/dir/c.txt/", "/../Casketfile/", "/..//dir", "/../idx"} {
+				if !thorough && !r.Chance(40) {
+					continue
+				}
+				for _, site := range c02SiteKinds {
+					add(site, r.Pick([]string{"GET", "GET", "HEAD"}), lead+host+tail, "", false)
+				}
+			}
+		}
+		add("static", "GET", lead+"dir", "", false)
+		add("browse", "GET", lead+"dir", "", false)
+		add("scoped", "GET", lead+"dir"+lead+"sub", "", false)
+		add("static", "GET", lead+"a.txt/", "", false)
+		add("browse", "GET", lead+"a.txt/?archive=zip", "", false)
+	}
+	// every file x every Accept-Encoding subset (order varied), GET and HEAD
+	encs := []string{"gzip", "br", "zstd"}
+	for _, f := range files {
+		for mask := 0; mask < 8; mask++ {
+			if !thorough && mask != 0 && mask != 7 && !strings.Contains(f, ".txt") && !r.Chance(30) {
+				continue
+			}
+			var toks []string
+			for _, i := range r.Perm(3) {
+				if mask&(1<<i) != 0 {
+					toks = append(toks, encs[i])
+				}
+			}
+			add(r.Pick(c02SiteKinds), r.Pick([]string{"GET", "GET", "GET", "HEAD"}), c02Render(r, segsOf(f), false, 0), strings.Join(toks, r.Pick([]string{",", ", ", " , "})), false)
+		}
+	}
+
+	// every file that has a precompressed sibling (or whose index page has) x every Accept-Encoding
+	// spelling incl. the decoys that must NOT select a sibling (substring, case, q-values, x-gzip, *)
+	for _, f := range []string{"/a.txt", "/b.txt", "/dir/c.txt", "/dir/sub/d.txt", "/idx/index.html", "/idx/", "/hsib.txt", "/dir/e", "/./a.txt", "/dir/../b.txt"} {
+		for _, ae := range c02AEs[2:] {
+			if thorough || r.Chance(60) {
+				add(r.Pick(c02SiteKinds), r.Pick([]string{"GET", "GET", "GET", "HEAD"}), f, ae, false)
+			}
+		}
+	}
+
+	// sites with a path prefix (127.0.0.1:0/pre): the rest after the prefix is re-parsed by the server
+	for _, site := range []string{"prefix", "prefix-browse"} {
+		for _, t := range []string{"/a.txt", "/dir", "/dir/", "/a.txt/", "/Casketfile", "/./Casketfile", "/links/hard-casket", "/hsib.txt", "/idx/", "/../outside/o.txt", "/%2e%2e/root.txt", "",
+			"//evil.example/..", "//evil.example/../dir", "//evil.example/%2e%2e/a.txt/", "///evil.example/../dir", "//dir", "//dir/sub", "/%2fevil.example/..", "/\\evil.example/../dir", "/%5cevil.example/../dir"} {
+			add(site, "GET", "/pre"+t, r.Pick([]string{"", "gzip"}), false)
+		}
+		add(site, "GET", "/a.txt", "", false)
+		add(site, "GET", "/pre%2fdir", "", false)
+		add(site, "GET", "/pre/..%2fpre/dir", "", false)
+	}
+
+	// sites whose origin Casketfile lies elsewhere: in a sub-directory of the root, outside the root,
+	// in a sibling directory whose name has the root's as a prefix
+	for _, site := range c02OriginKinds {
+		for _, t := range []string{"/Casketfile", "/sub2/Casketfile", "/x/Casketfile", "/sub2/./Casketfile", "/x/../sub2/Casketfile/.", "/links/hard-casket", "/", "/sub2/", "/x/",
+			"/?archive=zip", "/sub2/?archive=zip", "/x/?archive=zip", "/secret.txt", "/a.txt", "/../outside/Casketfile", "/../rootx/Casketfile"} {
+			add(site, "GET", t, r.Pick([]string{"", "gzip"}), r.Chance(30))
+		}
+	}
+
+	// (3) random respellings of fixture paths and of paths aimed outside the root
+	n := 1100
+	if thorough {
+		n = 22000
+	}
+	extra := []string{"/x/Casketfile", "/sub2/Casketfile", "/nope", "/dir/nope.txt", "/../outside/o.txt", "/../rootx/x.txt", "/../root.txt", "/../outside/Casketfile", "/dir/../../outside/o.txt", "/CASKETFILE", "/casketfile",
+		"/Secret.txt", "/SECRET.TXT", "/hsib.txt.GZ", "/HIDX/", "/hidx/INDEX.HTML", "/a.txt.gz", "/a.txt.zst/", "/dir/e.gz", "/idir/index.html", "/up.txt", "/DIR/c.txt", "/sub2/casketfile"}
+	for i := 0; i < n; i++ {
+		var p string
+		switch k := r.Intn(100); {
+		case k < 45:
+			p = r.Pick(files)
+		case k < 75:
+			p = r.Pick(dirs)
+		case k < 85:
+			p = r.Pick(c02Hide())
+		default:
+			p = r.Pick(extra)
+		}
+		segs := segsOf(p)
+		for k := r.Intn(4); k > 0; k-- {
+			segs = c02Mutate(r, segs)
+		}
+		trailing := strings.HasSuffix(p, "/") || r.Chance(25)
+		enc := 0
+		if r.Chance(50) {
+			enc = []int{4, 15, 40}[r.Intn(3)]
+		}
+		target := c02Render(r, segs, trailing, enc)
+		site := r.Pick(c02SiteKinds)
+		if r.Chance(8) {
+			site = r.Pick([]string{"prefix", "prefix-browse"})
+			target = "/pre" + target
+		} else if r.Chance(8) {
+			site = r.Pick(c02OriginKinds)
+		}
+		if site != "static" || r.Chance(15) {
+			target += c02PickQuery(r, site)
+		}
+		add(site, c02PickMethod(r), target, r.Pick(c02AEs), site != "static" && r.Chance(30))
+	}
 	return out
 }
 
 func init() {
 	register(&Property{
-		ID: "C02", Imports: "V.Lib V.GoPath V.Gen_C02 V.C02_Model", Judge: "judge", Shard: 120,
-		Rule: "real in-process sites (root = fixture with files, nested dirs, index pages incl. a directory named index.html, .gz/.br/.zst siblings, the origin Casketfile + a symlink to it, and token files OUTSIDE the root) queried over raw request lines: targets x adversarial spellings (dot segments, repeated/encoded slashes and dots, backslashes, case, trailing slashes, //host/.. open-redirect shapes) x Accept-Encoding x methods; with and without browse (+?archive=); the static cases are compared with the model on status/Location/encoding/identity of the served file, all cases against the contract (no outside token, no hidden file or name, same-origin Location); non-trivial = 200/301/307 answers",
+		ID: "C02", Imports: "V.Lib V.GoPath V.Gen_C02 V.Gen_C02b V.C02_Model", Judge: "judge", Shard: 150,
+		Rule:   "real in-process sites (static; browse / with every archive type; browse /dir with zip, tar.gz; the same root under a site path prefix /pre; the origin Casketfile in a sub-directory of the root / outside it / in a sibling directory named root+x) rooted in a fixture with files, nested directories, index pages (incl. a directory named index.html and a hidden index page), .gz/.br/.zst siblings (incl. a hidden one and a directory named like one), hard links, odd names, the origin Casketfile inside the root and `internal`-hidden files, plus token files outside the root; raw request lines: exhaustive targets of depth <= 2 (3 sampled / full) over the segment alphabet {a.txt, dir, ., .., empty, %2e, %2E%2e, %2f, backslash, %5c, A.TXT, Casketfile, x} x trailing slash (static; sampled on browse with ?archive=); every directory x archive types / sort orders / JSON; open-redirect shapes (1..5 leading slashes x foreign first segment x dot-dot x directory or file-with-slash); every file x Accept-Encoding subsets and decoys; random respellings (dot segments, doubled / encoded slashes and dots, case flips, backslashes, climbing above the root, NUL) x methods x queries. Prefix-site cases are judged against the executable property only (CContract). Non-trivial = answers 200 or 3xx",
 		Gen:    c02Gen,
 		Decode: func(raw json.RawMessage) (interface{}, error) { in := &c02In{}; return in, json.Unmarshal(raw, in) },
 		Run:    c02Run,
 	})
+	// Gen_C02b.v: browse's archive type list (from the sources) and the fixture tree (from c02Table)
+	registerGen("Gen_C02b.v", func(repo string) (string, error) {
+		_, f, err := parseGo(filepath.Join(repo, "caskethttp/browse/browse.go"))
+		if err != nil {
+			return "", err
+		}
+		consts := map[string]string{}
+		var order []string
+		ast.Inspect(f, func(n ast.Node) bool {
+			switch x := n.(type) {
+			case *ast.GenDecl:
+				if x.Tok == token.CONST {
+					for _, sp := range x.Specs {
+						vs := sp.(*ast.ValueSpec)
+						if id, ok := vs.Type.(*ast.Ident); ok && id.Name == "ArchiveType" && len(vs.Values) == 1 {
+							if bl, ok := vs.Values[0].(*ast.BasicLit); ok {
+								s, _ := strconv.Unquote(bl.Value)
+								consts[vs.Names[0].Name] = s
+							}
+						}
+					}
+				}
+			case *ast.ValueSpec:
+				if len(x.Names) >= 1 && x.Names[0].Name == "ArchiveTypes" && len(x.Values) >= 1 {
+					if cl, ok := x.Values[0].(*ast.CompositeLit); ok {
+						for _, el := range cl.Elts {
+							if id, ok := el.(*ast.Ident); ok {
+								order = append(order, consts[id.Name])
+							}
+						}
+					}
+				}
+			}
+			return true
+		})
+		if len(order) == 0 {
+			return "", fmt.Errorf("ArchiveTypes not found in browse.go")
+		}
+		var nodes []string
+		for _, n := range c02Nodes() {
+			nodes = append(nodes, fmt.Sprintf("(%s, %s, %s)", cStr(n.Path), cBool(n.Dir), cN(n.ID)))
+		}
+		return "Definition gen_archive_types : list bytes := " + cStrList(order) + ".\n" +
+			"Definition gen_c02_fixture : list (bytes * bool * N) := [\n  " + strings.Join(nodes, ";\n  ") + "].\n" +
+			"Definition gen_c02_hide : list bytes := " + cStrList(c02Hide()) + ".\n" +
+			"Definition gen_c02_internal : list bytes := " + cStrList(c02Internal) + ".\n", nil
+	})
+	extraCommands["c02probe"] = func(args []string) int {
+		if len(args) < 3 {
+			fmt.Fprintln(os.Stderr, "usage: harness c02probe <site> <method> <target> [accept-encoding] [json]")
+			return 2
+		}
+		in := &c02In{Site: args[0], Method: args[1], Target: args[2]}
+		if len(args) > 3 {
+			in.AE = args[3]
+		}
+		in.JSON = len(args) > 4
+		o, err := c02Do(in)
+		if err != nil {
+			fmt.Fprintln(os.Stderr, err)
+			return 1
+		}
+		b, _ := json.Marshal(o)
+		fmt.Println(string(b))
+		p, q, _ := c02Split(in.Target)
+		fmt.Println("sig:", c02Sig(in, p, q))
+		os.RemoveAll(c02Fixture().base)
+		return 0
+	}
 }
